@@ -131,6 +131,29 @@ theorem C08_fold_commutes_lossy (p : Option (Pred ι μ)) (s0 : View ι μ)
   rw [hinc.2, hv, run_received]
   simp [Cfg.init]
 
+/-- The whole of `Pull(WithInclude p)` WITHOUT backpressure against `List(WithInclude p)`: for every
+predicate, initial contents and write history, and every recv/emit pattern `ms` of the merging
+goroutine fed with exactly the published events — the seed followed by the include-filtered emitted
+stream is a well-formed history from the empty view at every moment, and once everything pending has
+been taken it folds to `List(WithInclude p)` of the contents after the writes. -/
+theorem C08_pull_lossy_matches_list (p : Option (Pred ι μ)) (items : List (ι × μ)) (hn : NodupKeys items)
+    (order : List (ι × μ)) (hperm : order.Perm (itemSlice p items)) (t t' : Nat) (ops : List (Op ι μ))
+    (ms : List (Move (Change ι μ))) (hms : inputs ms = (runOps t items ops).2) :
+    let r := runOps t items ops
+    let c := run Cfg.init ms
+    let stream := seedFrom t' order ++ c.emitted.filterMap (includeChange p)
+    WFHist View.empty stream ∧
+    (c.st.pending = [] → fold stream View.empty = viewOf (itemSlice p r.1)) := by
+  have hseed := C08_seed_is_filtered_list p items hn order hperm t'
+  have hops := runOps_spec t hn ops
+  have hl := C08_fold_commutes_lossy p (viewOf items) ms (by rw [hms]; exact hops.2.1)
+  have hlist := viewOf_itemSlice p (runOps t items ops).1 hops.1
+  refine ⟨?_, ?_⟩
+  · rw [WFHist_append, hseed.2.2]
+    exact ⟨hseed.2.1, hl.1⟩
+  · intro hd
+    rw [fold_append, hseed.2.2, hl.2.2 hd, hms, hops.2.2, hlist]
+
 /-! ### non-vacuity -/
 
 section examples
